@@ -123,6 +123,10 @@ def _post_init(ext, ruledb):
     COUNTS["ForestRuleExtractor.__init__"] += 1
     inserted = ruledb.table_method._h_inserted
     err = extraction_error(inserted, list(ext.needed_rules), ext.root_label)
+    if any(k.bucket == RuleBucket.REVERSE for k in inserted):
+        COUNTS["cases-with-reverse-keys"] += 1
+        if any(k.bucket == RuleBucket.REVERSE for k in ext.needed_rules):
+            COUNTS["cases-keeping-a-reverse-key"] += 1
     if err:
         return _note(err[0], f"universe {_short(inserted)}: {err[1]}")
     try:
